@@ -348,17 +348,17 @@ def edit_constant(parameterized):
     for pname, pobj in (kls_params | inst_params).items():
         if pobj.constant:
             pobj.constant = False
-            updated.append(pname)
+            updated.append((pname, pobj))
     try:
         yield
     finally:
-        for pname in updated:
-            # Some operations trigger a parameter instantiation (copy),
-            # we ensure both the class and instance parameters are reset.
-            if pname in kls_params:
-                type(parameterized).param[pname].constant=True
-            if pname in inst_params:
-                parameterized.param[pname].constant = True
+        for pname, pobj in updated:
+            pobj.constant = True
+            # Some operations trigger a parameter instantiation (copy) of a
+            # class parameter while it was temporarily editable.
+            inst_pobj = parameterized._param__private.params.get(pname)
+            if inst_pobj is not None and inst_pobj is not pobj:
+                inst_pobj.constant = True
 
 
 @contextmanager
